@@ -76,12 +76,13 @@ def run_latlon_struct(inst):
     distances increase, step D/dt <= dd.  That these primitives are correct is C14's subject."""
     from leuvenmapmatching.util import dist_latlon as dl
     kind, npts = inst[:2]
+    maxsub = inst[3] if len(inst) > 3 else MAXSUB
     saved = {k: getattr(dl, k) for k in ('radians', 'degrees', 'ceil', 'distance_haversine_radians', 'bearing_radians', 'destination_radians')}
     memo = {}
 
     def install():
         eng = E.get_engine()
-        sm = E.ShimMath(max_ceil=MAXSUB)
+        sm = E.ShimMath(max_ceil=maxsub)
         dl.radians = lambda x: x
         dl.degrees = lambda x: x
         dl.ceil = sm.ceil
@@ -154,7 +155,7 @@ def run_latlon_struct(inst):
         return dict(desc=f"dist_latlon.interpolate_path structure: {cname} fails (stand-in primitives) with dd={E.model_value(model, v['dd'].t)}, "
                          f"distances={ {str(k): E.model_value(model, d.t) for k, d in v['memo'].items() if isinstance(d, E.Sym)} }", kind='latlon_struct')
     try:
-        out = runner.explore(f"latlon-structure n={npts}", runner.lra_engine(10000), scenario, claims, confirm=confirm,
+        out = runner.explore(f"latlon-structure n={npts} subdivisions<={maxsub}", runner.lra_engine(10000), scenario, claims, confirm=confirm,
                              witness=lambda eng, v: ['latlon_inserted'] if len(v['out']) > len(v['pts']) else ['latlon_nothing_inserted'])
     finally:
         for k, f in saved.items():
@@ -167,8 +168,9 @@ def run_instance(inst):
         return run_latlon_struct(inst)
     from leuvenmapmatching.util import dist_euclidean as de
     kind, npts = inst[:2]
-    shims.install(max_ceil=MAXSUB)
-    name = f"euclidean n={npts}"
+    maxsub = inst[3] if len(inst) > 3 else MAXSUB
+    shims.install(max_ceil=maxsub)
+    name = f"euclidean n={npts} subdivisions<={maxsub}"
 
     def scenario():
         eng = E.get_engine()
@@ -234,12 +236,18 @@ def main(tier):
     from leuvenmapmatching.util import dist_latlon as dl
     rep.functions = src_hash(de.interpolate_path, de.distance, dl.interpolate_path)
     budget = 120 if tier == 'quick' else 600
-    insts = [('euclid', 1, budget), ('euclid', 2, budget), ('latlon_struct', 2), ('latlon_struct', 1)] + ([('euclid', 3, budget), ('latlon_struct', 3)] if tier == 'thorough' else [])
+    if tier == 'quick':
+        insts = [('euclid', 1, budget, 5), ('euclid', 2, budget, 8), ('euclid', 3, budget, 4),
+                 ('latlon_struct', 1, None, 5), ('latlon_struct', 2, None, 8), ('latlon_struct', 3, None, 4)]
+    else:
+        insts = [('euclid', 1, budget, 5), ('euclid', 2, budget, 24), ('euclid', 3, budget, 8), ('euclid', 4, budget, 4),
+                 ('latlon_struct', 1, None, 5), ('latlon_struct', 2, None, 24), ('latlon_struct', 3, None, 8), ('latlon_struct', 4, None, 4)]
+    maxsub_txt = ", ".join(f"{i[1]} points: <={i[3]}" for i in insts if i[0] == 'euclid')
     res = run_instances(run_instance, insts)
-    rep.bounds = dict(trace="1..%d points, all coordinates symbolic" % (2 if tier == 'quick' else 3), spacing="dd>0 symbolic",
-                      subdivisions=f"ceil(dist/dd) in 1..{MAXSUB} (paths beyond are counted as unwind, outside the bound)", metric="planar")
+    rep.bounds = dict(trace="1..%d points, all coordinates symbolic" % (3 if tier == 'quick' else 4), spacing="dd>0 symbolic",
+                      subdivisions=f"ceil(dist/dd) per leg bounded per instance ({maxsub_txt}); paths beyond are counted as unwind, outside the bound", metric="planar")
     rep.outside = ["latitude-longitude variant: only the loop structure is checked, over symbolic stand-ins of distance/bearing/destination (their correctness is C14)",
-                   "rounding (the last inserted point equals p2 only in exact arithmetic)", f"more than {MAXSUB} subdivisions per segment"]
+                   "rounding (the last inserted point equals p2 only in exact arithmetic)", f"more subdivisions per leg than the per-instance bound ({maxsub_txt})"]
     rep.assumptions = ["math.sqrt exact", "math.ceil forked over integer values"]
     tags = {}
     for r in res:
